@@ -1,6 +1,7 @@
 import Orx.KSRun
 import Orx.IW.Outs
 import Orx.IW.FullLoops
+import Orx.GenThms.ProtoSimBuf
 /-! # C12 for_each / enumerate_for_each / fold visit every element exactly once -/
 namespace Orx.Props.C12
 open Orx Orx.KS
@@ -113,5 +114,12 @@ example : IWF.Below lpS lpSched (IWF.init lpProgs) ∧
   intro t ht
   have : t = 0 ∨ t = 1 := by omega
   rcases this with rfl | rfl <;> decide +kernel
+
+
+/-- `for_each` / `fold` with chunk size > 1 pull through `buffered_iter`: the request of the model is the translated
+`BufferedIter::next`/`BufferIter::pull` of the current source -/
+theorem source_buffered_request_is_the_translated_function (F : Nat) (buf : List (Option Nat)) (l : Bool) :
+    GenThms.Proto.reqTreeB F buf = GenThms.Proto.treeAtB F F buf (.resv (.buffered buf.length l)) :=
+  GenThms.Proto.reqTreeB_eq F buf l
 
 end Orx.Props.C12
